@@ -340,7 +340,9 @@ SplitProg(asg, inc) ==
       \* ... and through an absolute path without prefixes (the submodule's text is the module's text)
       s2Aug == << Aug(<< Q("m","c1") >>, << Leaf("from_s2") >>), Aug(<< Q("","li") >>, << Leaf("li_s2") >>),
                   Stmt("deviation", << Q("","l1") >>, << Stmt("deviate", "add", << Stmt("units", "u", <<>>) >>) >>) >>
-  IN Prog(("m" :> m) @@ ("s1" :> Sub("s1", "m", NoImp, s1Inc, Body(asg, "s1") \o s1Aug))
+      \* a use, written in s1, of the grouping wherever it lives (the module itself, s1, or the sibling s2)
+      s1Use == << Stmt("container", "c3", << Uses("", "g") >>) >>
+  IN Prog(("m" :> m) @@ ("s1" :> Sub("s1", "m", NoImp, s1Inc, Body(asg, "s1") \o s1Aug \o s1Use))
           @@ ("s2" :> Sub("s2", "m", NoImp, s2Inc, Body(asg, "s2") \o s2Aug)) @@ ("b" :> b))
 SSplit(dummy) == { SplitProg(asg, inc) : asg \in [1..4 -> {"m", "s1", "s2"}], inc \in {"flat", "nested", "both", "rev"} }
 MCOrder3 == <<"m", "s1", "s2", "b">>
